@@ -25,6 +25,35 @@ class TempElf:
             pass
 
 
+class TempElfSet:
+    """The main file plus the files it refers to by name (a dwz supplementary file), in a directory of their own."""
+
+    def __init__(self, data, others=()):
+        os.makedirs(SCRATCH, exist_ok=True)
+        self.dir = tempfile.mkdtemp(prefix="gen-", dir=SCRATCH)
+        self.path = os.path.join(self.dir, "main.o")
+        with open(self.path, "wb") as f:
+            f.write(data)
+        for name, d in others:
+            with open(os.path.join(self.dir, name), "wb") as f:
+                f.write(d)
+
+    def __enter__(self):
+        return self.path
+
+    def __exit__(self, *a):
+        import shutil
+        shutil.rmtree(self.dir, ignore_errors=True)
+
+
+def forest_files(f):
+    """(main file bytes, [(name, bytes)] of the files that go with it) for a dwgen.Forest."""
+    from .dwgen import build_file, build_alt_file
+    data = build_file(f)
+    others = [(f.alt_name.decode(), build_alt_file(f))] if f.alt is not None else []
+    return data, others
+
+
 def dwarfdump_dies(path):
     """Independent reader: [(offset, tag name, [(attr name, form name)])] via llvm-dwarfdump -v."""
     import re
